@@ -1138,7 +1138,7 @@ def border_plan(tier, seed):
     return [
         (2, False, [f"all-all@{plain}", f"all-all@{merged(seed)}"]),
         (3, False, [f"collinear-cycle@{plain}"]),
-        (2, True, [f"all-cycle3@{plain}"] + [f"collinear-cycle3@{merged(seed + i)}" for i in range(3)] + [f"collinear-cycle3-reopen@{plain}"]
+        (2, True, [f"all-one@{plain}", f"collinear-cycle3@{plain}"] + [f"collinear-cycle3@{merged(seed + i)}" for i in range(3)] + [f"collinear-cycle3-reopen@{plain}"]
          + [f"collinear-one-reopen@{merged(seed + i)}" for i in range(2)] + [f"redraw@{plain}"] + [f"redraw@{merged(seed + i)}" for i in range(3)]
          + [f"redraw-rs@{plain}", f"redraw-rs@{merged(seed)}", f"two-tables-wide@{two}"]),
         (3, True, [f"collinear-one@{plain}"]),
